@@ -108,6 +108,12 @@ class Violation(Exception):
         return {"property": self.prop, "vclass": self.vclass, "detail": self.detail, "site": self.site}
 
 
+def vclasses(r: dict) -> list:
+    if r.get("status") != "violation":
+        return []
+    return [r["violation"]["vclass"]] + [v["vclass"] for v in r.get("more_violations", [])]
+
+
 def result_ok(**kw):
     d = {"status": "ok"}
     d.update(kw)
